@@ -21,7 +21,7 @@ package errors
 //@ func (*withCode).Error
 //@   props C17 C04
 //@   requires w != nil && w.cause != nil
-//@   ensures result == errtext(w.cause)
+//@   ensures result == msgOf(w.cause)
 //@   modifies nothing
 
 //@ func WithSeverity
@@ -39,7 +39,7 @@ package errors
 //@ func (*withSeverity).Error
 //@   props C17 C04
 //@   requires w != nil && w.cause != nil
-//@   ensures result == errtext(w.cause)
+//@   ensures result == msgOf(w.cause)
 //@   modifies nothing
 
 //@ func WithHint
@@ -57,7 +57,7 @@ package errors
 //@ func (*withHint).Error
 //@   props C17 C04
 //@   requires w != nil && w.cause != nil
-//@   ensures result == errtext(w.cause)
+//@   ensures result == msgOf(w.cause)
 //@   modifies nothing
 
 //@ func WithDetail
@@ -75,7 +75,7 @@ package errors
 //@ func (*withDetail).Error
 //@   props C17 C04
 //@   requires w != nil && w.cause != nil
-//@   ensures result == errtext(w.cause)
+//@   ensures result == msgOf(w.cause)
 //@   modifies nothing
 
 //@ func WithConstraintName
@@ -93,7 +93,7 @@ package errors
 //@ func (*withConstraint).Error
 //@   props C17 C04
 //@   requires w != nil && w.cause != nil
-//@   ensures result == errtext(w.cause)
+//@   ensures result == msgOf(w.cause)
 //@   modifies nothing
 
 //@ func WithSource
@@ -111,7 +111,7 @@ package errors
 //@ func (*withSource).Error
 //@   props C17 C04
 //@   requires w != nil && w.cause != nil
-//@   ensures result == errtext(w.cause)
+//@   ensures result == msgOf(w.cause)
 //@   modifies nothing
 
 //@ func GetCode
@@ -159,7 +159,7 @@ package errors
 //@   props C17 C04
 //@   ensures [nil-internal-fatal] err == nil ==> (result.Code == "XX000" && result.Severity == "FATAL" && result.Message == "unknown error, an internal process attempted to throw an error" && result.Hint == "" && result.Detail == "" && result.ConstraintName == "" && result.Source == nil)
 //@   ensures [code] err != nil ==> result.Code == specCode(err)
-//@   ensures [message] err != nil ==> result.Message == errtext(err)
+//@   ensures [message] err != nil ==> result.Message == msgOf(err)
 //@   ensures [severity] err != nil ==> result.Severity == (specSeverity(err) == "" ? "ERROR" : specSeverity(err))
 //@   ensures [hint] err != nil ==> result.Hint == specHint(err)
 //@   ensures [detail] err != nil ==> result.Detail == specDetail(err)
